@@ -4,10 +4,11 @@
    path of Region.__init__, and the legacy reader).  Definitions only.
 
    The payload type V is abstract: the writer and the reader move values, they never compute
-   with them.  The only place where a value is touched is Field.__init__ on the way back:
+   with them.  The reader of the current layout passes the stored dtype to Field.__init__
+   (commit 66ed56c8), so the payload comes back untouched.  The LEGACY reader does not:
    `np.full(shape, value, dtype = max(value.dtype, float64))` turns every non-float real dtype
    (bool, intN, uintN) into float64.  That map is the parameter [conv]; it is applied to DInt
-   payloads only. *)
+   payloads of legacy files only. *)
 From Coq Require Import DecimalString.
 From DF Require Import Prelude Region Mesh.
 Open Scope Q_scope.
@@ -159,15 +160,21 @@ Definition conv_dk (d : dkind) : dkind := match d with DInt => DFloat | _ => d e
 Definition conv_vals {V} (conv : V -> V) (d : dkind) (l : list V) : list V :=
   match d with DInt => map conv l | _ => l end.
 
-(* Field(mesh, nvdim, value = ndarray, vdims, unit, valid = ndarray) *)
-Definition mk_field {V} (conv : V -> V) (ck : ckind) (m : mesh) (sk : list ckind) (nv : Z)
+(* Field(mesh, nvdim, value = ndarray, [dtype = stored dtype,] vdims, unit, valid = ndarray).
+   [keep] = the dtype argument is passed (current layout).  The last test is the vdim_mapping
+   setter: without labels a vector field whose component count equals the number of spatial
+   dimensions cannot be built (zip over None raises TypeError). *)
+Definition mk_field {V} (conv : V -> V) (keep : bool) (ck : ckind) (m : mesh) (sk : list ckind) (nv : Z)
     (dk : dkind) (shape : list Z) (arr : list V) (vd : option (list string))
     (u : option string) (vshape : list Z) (valid : list bool) : res (fstate V) :=
   if negb (1 <=? nv)%Z then Err ValueE else
   if negb (zlist_eqb shape (n m ++ [nv]) || ((nv =? 1)%Z && zlist_eqb shape (n m))) then Err ValueE else
   if negb (zlist_eqb vshape (n m)) then Err ValueE else
   do vd' <- set_vdims nv vd;
-  OK (mkF ck m sk nv vd' u (conv_dk dk) (conv_vals conv dk arr) valid).
+  if match vd' with None => negb (nv =? 1)%Z && (nv =? Z.of_nat (ndim (reg m)))%Z | Some _ => false end
+  then Err TypeE else
+  OK (mkF ck m sk nv vd' u (if keep then dk else conv_dk dk)
+          (if keep then arr else conv_vals conv dk arr) valid).
 
 (* Region._h5_load: Region(pmin=…, pmax=…, dims=…, ndim=…, units=…, tolerance_factor=…) *)
 Definition load_region (h : h5reg) : res region :=
@@ -195,7 +202,7 @@ Definition decode_new {V} (conv : V -> V) (h : h5new V) : res (fstate V) :=
   if negb (String.eqb (h_type h) file_type) then Err ValueE else
   if negb (String.eqb (h_version h) file_version) then Err RuntimeE else
   do vd <- match h_vdims h with
-           | AStr s => if String.eqb s none_marker then OK None else Err TypeE
+           | AStr s => if String.eqb s none_marker then OK (Some []) else Err TypeE
            | AStrs l => OK (Some l)
            end;
   let u := if String.eqb (h_unit h) none_marker then None else Some (h_unit h) in
@@ -203,7 +210,7 @@ Definition decode_new {V} (conv : V -> V) (h : h5new V) : res (fstate V) :=
   do sb <- load_subs r (h_subs h);
   do m0 <- mk_mesh_n r (h_n h);
   let m := mkMesh r (h_n h) (h_bc h) (fst sb) in
-  mk_field conv (hr_ck (h_reg h)) m (snd sb) (h_nvdim h) (h_dk h) (h_shape h) (h_arr h) vd u
+  mk_field conv true (hr_ck (h_reg h)) m (snd sb) (h_nvdim h) (h_dk h) (h_shape h) (h_arr h) vd u
            (h_vshape h) (h_valid h).
 
 (* side-car entry: Region( **val ), again the pmin/pmax keyword path *)
@@ -217,7 +224,7 @@ Definition decode_legacy {V} (conv : V -> V) (l : h5legacy V) : res (fstate V) :
   do ss <- match l_side l with None => OK [] | Some items => mapM (load_side r) items end;
   let sk := match l_side l with None => [] | Some items => map sd_ck items end in
   let m := mkMesh r (l_n l) "" ss in
-  mk_field conv (kjoin (l_ck1 l) (l_ck2 l)) m sk (l_dim l) (l_dk l) (l_shape l) (l_arr l)
+  mk_field conv false (kjoin (l_ck1 l) (l_ck2 l)) m sk (l_dim l) (l_dk l) (l_shape l) (l_arr l)
            None None (l_n l) (repeat true (Z.to_nat (zprod (l_n l)))).
 
 Definition decode {V} (conv : V -> V) (f : h5file V) : res (fstate V) :=
@@ -245,17 +252,16 @@ Definition wf_field {V} (f : fstate V) : Prop :=
   Forall2 (wf_sub r) (f_subk f) (subs m) /\
   (1 <= f_nvdim f)%Z /\
   match f_vdims f with
-  | None => f_nvdim f = 1%Z
+  | None => f_nvdim f = 1%Z \/ f_nvdim f <> Z.of_nat (length (pmin r))   (* vdim_mapping setter *)
   | Some l => l <> [] /\ Z.of_nat (length l) = f_nvdim f /\ nodupb l = true
   end.
 
-(* the state the reader returns for a well-formed field: subregion corners carry the table's
-   kind, integer payloads have become float64 *)
-Definition canon {V} (conv : V -> V) (f : fstate V) : fstate V :=
+(* the state the reader returns for a well-formed field: identical, except that subregion
+   corners carry the table's dtype kind (a representation tag; their values are untouched) *)
+Definition canon {V} (f : fstate V) : fstate V :=
   mkF (f_ck f) (f_mesh f)
       (repeat (table_kind (f_ck f) (f_subk f)) (length (subs (f_mesh f))))
-      (f_nvdim f) (f_vdims f) (f_unit f) (conv_dk (f_dk f))
-      (conv_vals conv (f_dk f) (f_vals f)) (f_valid f).
+      (f_nvdim f) (f_vdims f) (f_unit f) (f_dk f) (f_vals f) (f_valid f).
 
 (* ---------- a decidable form of [wf_field] (evaluated on every in-domain correspondence case;
    soundness: proofs/C10_hdf5.v, wf_fieldb_sound) ---------- *)
@@ -281,6 +287,6 @@ Definition wf_fieldb {V} (f : fstate V) : bool :=
   forallb2 (wf_subb r) (f_subk f) (subs m) &&
   (1 <=? f_nvdim f)%Z &&
   match f_vdims f with
-  | None => (f_nvdim f =? 1)%Z
+  | None => (f_nvdim f =? 1)%Z || negb (f_nvdim f =? Z.of_nat (length (pmin r)))%Z
   | Some l => negb (length l =? 0)%nat && (Z.of_nat (length l) =? f_nvdim f)%Z && nodupb l
   end.
